@@ -34,7 +34,7 @@ MCAtoms == {C.tla_str(set(cf['atoms']))}
 MCBad == {C.tla_str(set(cf['bad']))}
 MCOpTable == {cf['table']}
 MCSteps == {cf['steps']}
-MCExprs == StringsUpTo({C.tla_str(set(alpha))}, {maxlen})
+MCExprs == StringsUpTo({C.tla_str(set(alpha))}, {maxlen}) \cup Wrapped(StringsUpTo({C.tla_str(set(alpha))}, 2))
 MCPlans == PlansOver(MCExprs, {ncalls})
 MCProbes == StringsUpTo({C.tla_str(set(alpha))}, 2)
 MCReset == {C.tla_str(reset)}
